@@ -171,6 +171,13 @@ func (s *Session) beginTeardown() bool {
 	return true
 }
 
+// isTornDown reports whether the session has already been cleaned up
+func (s *Session) isTornDown() bool {
+	s.mu.RLock()
+	defer s.mu.RUnlock()
+	return s.tornDown
+}
+
 // IsEstablished returns true if the session is established
 func (s *Session) IsEstablished() bool {
 	return s.GetState() == StateEstablished
